@@ -7,6 +7,23 @@ use nexrad_decode::messages::rda_status_data as rda;
 use rayon::prelude::*;
 use serde_json::{json, Value};
 
+/// Decodes 60 halfwords; a panic or an error of the decoder itself is a verdict (every 60-halfword
+/// body is well formed), reported once per class, and the caller skips the case.
+fn decode_g(ctx: &Ctx, hw: &[u16; 60]) -> Option<rda::Message> {
+    let body = rda_body(hw);
+    match guarded(move || rda::decode_rda_status_message(&mut body.as_slice()).map_err(|e| format!("{e:?}"))) {
+        Caught::Ret(Ok(m)) => Some(m),
+        Caught::Ret(Err(e)) => {
+            ctx.fail("decode:well_formed_status_message_rejected", || e.clone(), || json!({"op": "decode", "halfwords": hw.to_vec()}));
+            None
+        }
+        Caught::Panic(p) => {
+            ctx.fail(&format!("decode:panic:{}", panic_class(&p)), || p.clone(), || json!({"op": "decode", "halfwords": hw.to_vec()}));
+            None
+        }
+    }
+}
+
 fn decode(hw: &[u16; 60]) -> rda::Message {
     rda::decode_rda_status_message(&mut rda_body(hw).as_slice()).expect("120 bytes decode")
 }
@@ -30,7 +47,7 @@ fn plan(p: u8) -> [u16; 60] {
 
 fn check_layout(ctx: &Ctx, p: u8, st: &mut Stats) {
     let hw = plan(p);
-    let m = decode(&hw);
+    let Some(m) = decode_g(ctx, &hw) else { return };
     st.eval();
     let wit = || json!({"op": "layout", "plan": p});
     let mut f: Vec<(&str, usize, u16)> = vec![
@@ -141,7 +158,7 @@ fn coded_accessor(m: &rda::Message, field: &str) -> String {
 fn check_coded(ctx: &Ctx, field: &'static str, hwno: usize, code: u16, meaning: &'static str, st: &mut Stats) {
     let mut hw = rda_in_domain();
     hw[hwno - 1] = code;
-    let m = decode(&hw);
+    let Some(m) = decode_g(ctx, &hw) else { return };
     st.eval();
     let wit = || json!({"op": "coded", "field": field, "halfword": hwno, "code": code, "meaning": meaning});
     match guarded(|| coded_accessor(&m, field)) {
@@ -264,7 +281,7 @@ fn check_raw(ctx: &Ctx, base: &rda::Message, raw: u16, st: &mut Stats) {
 fn check_alarm_array(ctx: &Ctx, codes: [u16; 14], st: &mut Stats) {
     let mut hw = rda_in_domain();
     hw[26..40].copy_from_slice(&codes);
-    let m = decode(&hw);
+    let Some(m) = decode_g(ctx, &hw) else { return };
     st.eval();
     let wit = || json!({"op": "alarms", "codes": codes});
     match guarded(|| m.alarm_messages()) {
@@ -284,6 +301,10 @@ fn check_alarm_array(ctx: &Ctx, codes: [u16; 14], st: &mut Stats) {
     }
 }
 
+fn aborted(_ctx: &Ctx) -> (&'static str, Value, Vec<&'static str>) {
+    ("exploration", json!({"evaluations": 1, "distinct_nontrivial": 0, "rule": "aborted: the reference status message does not decode", "samples": []}), vec![])
+}
+
 pub fn run(ctx: &'static Ctx) -> (&'static str, Value, Vec<&'static str>) {
     let thorough = ctx.tier.thorough();
     let mut stats = Stats::new();
@@ -300,7 +321,7 @@ pub fn run(ctx: &'static Ctx) -> (&'static str, Value, Vec<&'static str>) {
             // distinct codes give distinct meanings (as observed)
             let mut hw = rda_in_domain();
             hw[hwno - 1] = *code;
-            let m = decode(&hw);
+            let Some(m) = decode_g(ctx, &hw) else { continue };
             if let Caught::Ret(s) = guarded(|| coded_accessor(&m, field)) {
                 meanings.push(s);
             }
@@ -312,7 +333,7 @@ pub fn run(ctx: &'static Ctx) -> (&'static str, Value, Vec<&'static str>) {
             ctx.fail(&format!("coded:{field}:distinct_codes_same_meaning"), || format!("{:?}", meanings), || json!({"op": "coded_distinct", "field": field}));
         }
     }
-    let base = decode(&rda_in_domain());
+    let Some(base) = decode_g(ctx, &rda_in_domain()) else { return aborted(ctx) };
     let sraw: Stats = (0u32..65536)
         .into_par_iter()
         .fold(Stats::new, |mut st, raw| {
@@ -325,7 +346,7 @@ pub fn run(ctx: &'static Ctx) -> (&'static str, Value, Vec<&'static str>) {
     // the same raw sweep on other base messages (an accessor must depend only on its own
     // halfword, whatever the other 59 hold), and raw, raw^bit, raw sequences on one thread
     for bp in [0u8, 1] {
-        let alt = decode(&plan(bp));
+        let Some(alt) = decode_g(ctx, &plan(bp)) else { continue };
         let s_alt: Stats = (0u32..65536)
             .into_par_iter()
             .fold(Stats::new, |mut st, raw| {
@@ -467,7 +488,18 @@ pub fn replay(ctx: &'static Ctx, case: &Value) {
                 }
             }
         }
-        Some("raw") => check_raw(ctx, &decode(&rda_in_domain()), case["raw"].as_u64().unwrap_or(0) as u16, &mut st),
+        Some("decode") => {
+            let mut hw = [0u16; 60];
+            for (i, x) in case["halfwords"].as_array().cloned().unwrap_or_default().iter().enumerate().take(60) {
+                hw[i] = x.as_u64().unwrap_or(0) as u16;
+            }
+            println!("replay decode: {:?}", decode_g(ctx, &hw).is_some());
+        }
+        Some("raw") => {
+            if let Some(m) = decode_g(ctx, &rda_in_domain()) {
+                check_raw(ctx, &m, case["raw"].as_u64().unwrap_or(0) as u16, &mut st)
+            }
+        }
         Some("alarm_pair") | Some("short_read") | Some("short_read_stream") => {
             let _ = run(ctx);
         }
